@@ -1319,3 +1319,46 @@ func OwnerLabelsAlwaysCompared(p *core.Program, r *core.Report, rule string) {
 	r.RuleCounts[rule] = n
 	r.Floor(rule, 2)
 }
+
+// NamespaceObjectOnlyNilForRepresentatives is E2-N3-ns, the premise of two tabled exceptions of E2-N3: the admin-policy
+// matchers dereference `peer.GetPeerNamespace()` without a nil test, which is sound because (1) IP peers are excluded
+// before (C02-d), (2) representative peers never meet admin policies, and (3) every other pod peer is given a namespace
+// object - the functions of package eval that supply it (result types *k8s.Namespace, error) answer `nil, nil` only for
+// a representative pod. A further `nil, nil` (for the fake ingress-controller pod, for a namespace that is not in the
+// engine, ...) lets a real pod reach those dereferences with a nil namespace object.
+func NamespaceObjectOnlyNilForRepresentatives(p *core.Program, r *core.Report, rule string) {
+	n, fns := 0, 0
+	for _, fd := range p.FuncsIn(core.PkgEval) {
+		sig := fd.Obj.Type().(*types.Signature)
+		if sig.Results().Len() != 2 || !core.IsErrorType(sig.Results().At(1).Type()) {
+			continue
+		}
+		pt, isPtr := sig.Results().At(0).Type().(*types.Pointer)
+		if !isPtr || !core.TypeIs(pt.Elem(), core.PkgK8s, "Namespace") {
+			continue
+		}
+		fns++
+		info := fd.Pkg.TypesInfo
+		w := facts.NewWalker(info)
+		w.OnExit = func(st int, ret *ast.ReturnStmt, f facts.Formula) {
+			if w.FuncLitDepth > 0 || ret == nil || len(ret.Results) != 2 || !core.IsNil(info, ret.Results[0]) || !core.IsNil(info, ret.Results[1]) {
+				return
+			}
+			n++
+			ok := false
+			for _, a := range facts.Atoms(f) {
+				if strings.Contains(facts.StripVersions(a), "IsPodRepresentative()") && facts.Entails(f, facts.Atom(a)) {
+					ok = true
+				}
+			}
+			r.Check(ok, rule, fd.Key()+": answers `no namespace object, no error` for representative pods only", p.Pos(ret.Pos()), "under IsPodRepresentative()",
+				"`nil, nil` is returned under "+facts.StripVersions(facts.String(f))+", which does not entail that the pod is a representative peer: a real (or the fake ingress-controller) pod gets a nil namespace object, and the admin-policy matchers dereference it without a test (exceptions of E2-N3 rest on this)")
+		}
+		w.WalkBody(fd.Decl.Body, nil)
+	}
+	r.RuleCounts[rule] = n
+	r.RuleCounts[rule+"-fns"] = fns
+	// the supplier may be inlined into its caller (then nothing has the signature and the rule has no instance): no floor
+	r.Floor(rule+"-fns", 0)
+	r.Floor(rule, 0)
+}
